@@ -1,6 +1,6 @@
 (** C02/C03 correspondence entry: <fuel> <program tokens...>  ->  result fields. *)
 From Coq Require Import String.
-From BV Require Import Base.Prelude Base.Codec Shell.Syntax Shell.ModelExec Shell.Codec.
+From BV Require Import Base.Prelude Base.Codec Shell.Syntax Shell.ModelExec Shell.SpecExec Shell.Scope Shell.Codec.
 Close Scope Z_scope.
 Open Scope nat_scope.
 
@@ -20,11 +20,11 @@ Definition show_flow (f : flow) : str :=
   | ExitShell => lit "X"
   end.
 
-(** model fields: ok <status> <flow> <$?> <stdout> <g_leak> <g_bang>   |   fuel *)
+(** model fields: ok <status> <flow> <$?> <stdout> <ghost letters>   |   fuel *)
 Definition show_model (o : outcome result) : list str :=
   match o with
   | Out r w => [lit "ok"; show_nat (fst r); show_flow (snd r); show_nat (last (sh w)); show_out (out w);
-                enc_bool (g_leak w); enc_bool (g_bang w)]
+                flat_map (fun g => match g with GLeak => lit "L" | GBang => lit "B" | GCond => lit "C" end) (ghost w)]
   | OutOfFuel => [lit "fuel"]
   end.
 
@@ -33,6 +33,30 @@ Definition entry_cf_model (a : list str) : list str :=
   | fuel :: toks =>
       match dec_program toks with
       | Some p => show_model (run_model (dec_nat fuel) p)
+      | None => [lit "?decode"]
+      end
+  | [] => [lit "?args"]
+  end.
+
+(** spec fields: norm|ret|exit <$?> <stdout>   |   fuel *)
+Definition show_spec (o : sres) : list str :=
+  match o with
+  | SNorm s => [lit "norm"; show_nat (slast s); show_out (b_out s)]
+  | SRet s => [lit "ret"; show_nat (slast s); show_out (b_out s)]
+  | SExit s => [lit "exit"; show_nat (slast s); show_out (b_out s)]
+  | SFuel => [lit "fuel"]
+  end.
+
+(** scope classes: S stray count, Z zero count, W continue in a loop condition, M malformed *)
+Definition show_reasons (l : list reason) : str :=
+  flat_map (fun r => match r with RStray => lit "S" | RZero => lit "Z" | RContCond => lit "W" | RMalformed => lit "M" end) l.
+
+Definition entry_cf (a : list str) : list str :=
+  match a with
+  | fuel :: toks =>
+      match dec_program toks with
+      | Some p => show_model (run_model (dec_nat fuel) p) ++ [lit "|"] ++ show_spec (run_spec (dec_nat fuel) p)
+                  ++ [lit "|"; show_reasons (scope_program p)]
       | None => [lit "?decode"]
       end
   | [] => [lit "?args"]
